@@ -79,3 +79,10 @@ Theorem C18_lenient_payload : forall (m : bytes) (aux : option bytes), fits32 m 
   match aux with Some a => fits32 a | None => True end ->
   parse_payload (payload m aux) = Ok (m, norm_aux aux).
 Proof. exact parse_payload_lenient. Qed.
+
+(* non-vacuity of the premises of C18_aggregate / C18_order_independent: two measurements at threshold 2, the first
+   reported by two clients (one without associated data), the second by one; exactly one entry comes out *)
+From StarV Require Import Keccak AggExample.
+Example C18_nonvacuous : honest_items keccak_bytes 2 ex_items /\
+  exists o, aggregate keccak_bytes 2 ex_e (map (imsg keccak_bytes ex_e 2) ex_items) = Ok o /\ length o = 1%nat.
+Proof. exact agg_nonvacuous. Qed.
